@@ -295,6 +295,11 @@ func genC09Hist(t *rapid.T) c09HistCase {
 				bp.Txs = append(bp.Txs, p)
 			}
 		}
+		if rapid.IntRange(0, 3).Draw(t, "gov") == 0 {
+			// a passed governance proposal replaces the fee-market parameters in this block
+			bp.GovFee = &GovFeePlan{BaseFee: rapid.SampledFrom([]string{"0", "1", "7", "1000", "1000000000", "7000000000", "1000000000000"}).Draw(t, "govbasefee"),
+				MinGasPrice: rapid.SampledFrom([]string{"0", "0.5", "1000", "2000", "2000000000", "999999999.5", "3000000000"}).Draw(t, "govmin")}
+		}
 		cs.Blocks = append(cs.Blocks, bp)
 	}
 	return cs
@@ -356,10 +361,21 @@ func runC09Hist(cs c09HistCase) *Outcome {
 				o.label("hist:degenerate-target")
 			}
 		}
-		// no admitted tx below the floor
-		floor := new(big.Int).Set(end.BaseFee)
-		if end.MinInt.Cmp(floor) > 0 {
-			floor = end.MinInt
+		if bp.GovFee != nil {
+			if br.GovErr == nil {
+				o.label("hist:gov-params-enacted")
+			} else {
+				o.label("hist:gov-params-refused")
+			}
+		}
+		// no admitted tx below the floor (the parameters the block's txs were admitted under: before a governance update)
+		adm := end
+		if br.PreGov != nil {
+			adm = br.PreGov.(*c09End)
+		}
+		floor := new(big.Int).Set(adm.BaseFee)
+		if adm.MinInt.Cmp(floor) > 0 {
+			floor = adm.MinInt
 		}
 		for ti, tr := range br.Txs {
 			if !tr.admitted() {
@@ -384,7 +400,7 @@ func runC09Hist(cs c09HistCase) *Outcome {
 				continue
 			}
 			if price.Cmp(floor) < 0 {
-				o.dev("", "block %d tx %d: admitted with effective price %s below the floor %s (base fee %s, min %s)", bi, ti, price, floor, end.BaseFee, end.MinInt)
+				o.dev("", "block %d tx %d: admitted with effective price %s below the floor %s (base fee %s, min %s)", bi, ti, price, floor, adm.BaseFee, adm.MinInt)
 			} else if price.Cmp(floor) == 0 {
 				o.label("hist:admitted-at-floor")
 			}
